@@ -601,8 +601,9 @@ PROPS["C02"] = dict(
                "are a link between data-only programs. The oracle wf3b decides exactly wf3 (C02_oracle_wf3); the link cores are "
                "the programs regenerated from betas.rs. Tie: the Gallina transcription of every 3-map call is compared with the "
                "implementation (random histories, edits of hexahedral grids, all pairs of closed / open faces of 1-5 sides), wf3b "
-               "and the refusal of non-mirrorable faces are applied to every implementation observation (the refusal clause itself "
-               "is decided per observation, not proved)",
+               "and the refusal of non-mirrorable faces are applied to every implementation observation. The refusal clause is proved "
+               "too (C02_refuses_non_mirrorable: on faces that cannot be mirrored a 3-link / 3-sew never succeeds and changes "
+               "nothing; that the outcome is an error value is shown by the correspondence on every explored input)",
     technique="Coq model of the 3-map calls + correspondence + extracted wf3 / mirrorable oracle",
     families=[
         Family("core3-random", "core3", r_core3("random", 1200, 25000, 25, ["--darts", "10"]), 50, [(51, "wf3_step", WF3_CLASSES)]),
